@@ -28,7 +28,7 @@ RULE = ('random frame arrays: 1..6 channels (distinct str identities, some wider
         'halves at the last printed decimal and their neighbours, -999.25 (the NULL value), type minima/maxima and '
         'integers beyond 2**53; every reduction, width 1..24, .0f...9f, subset kinds empty/all/some/some+absent/x only/'
         'absent only; written through write_curve_and_array_section_to_las, or through the three writers called one by one '
-        'with separate copies of the set, or curve section + write_array_section_to_las. A case is non-trivial when it has >= 2 channels written and >= 2 frames; distinct by '
+        'with separate copies of the set, or curve section + write_array_section_to_las; write HISTORIES: the same FrameArray object written 2..4 times with different subsets/reductions/widths/formats/entry points and writes of a second object in between, every output checked on its own. A case is non-trivial when it has >= 2 channels written and >= 2 frames; distinct by '
         '(dtypes, shapes, reduction, subset kind, width, decimals, first row text).')
 
 ASSUMPTIONS = [
@@ -53,7 +53,8 @@ REDUCTIONS = ['first', 'mean', 'median', 'min', 'max']
 FLOATS = ['float32', 'float64']
 INTS = ['int8', 'int16', 'int32', 'int64', 'uint8', 'uint16', 'uint32', 'uint64']
 NAME_CHARS = 'ABCDEFGHIJKLMNOPQRSTUVWXYZabcdefghijklmnopqrstuvwxyz0123456789_-/[]()%+'
-UNITS = ['', 'm', 'ft', 'api', 'V/V', 'g/cm3', 'ohm.m', 'us/ft', 'degC', 'lbs', 'mV', '0.1in', 'K', 'HHMMSS', 'D', 'MS', 'S', 'hhmmss']
+# every key and (stripped) value of the reader's LASBase.UNITS_LAS_TO_LIS ('F' -> 'FEET', 'mts' -> 'M   ') with case variants
+UNITS = ['F', 'mts', 'FEET', 'M', 'f', 'MTS', '', 'm', 'ft', 'api', 'V/V', 'g/cm3', 'ohm.m', 'us/ft', 'degC', 'lbs', 'mV', '0.1in', 'K', 'HHMMSS', 'D', 'MS', 'S', 'hhmmss']
 
 
 # ----------------------------------------------------------------------------- generation
@@ -216,6 +217,39 @@ def _b(s, as_bytes):
     return s.encode('ascii') if as_bytes else s
 
 
+STEP_KEYS = ('subset', 'kind', 'red', 'width', 'dec', 'mode')
+
+
+def gen_history(rng):
+    """One frame array written 2..4 times with different subsets / reductions / widths / formats / entry points, with writes
+    of a second object in between: a list of cases, case i carrying the i earlier writes as its history."""
+    base = gen_case(rng)
+    while len(base['chans']) < 2:
+        base = gen_case(rng)
+    names = [ch['ident'] for ch in base['chans']]
+    steps = []
+    for k in range(rng.randint(2, 4)):
+        kind = rng.choice(['empty', 'all', 'one', 'one', 'some', 'xonly', 'absent'])
+        sub = {'empty': [], 'all': list(names), 'one': [rng.choice(names[1:])], 'xonly': [names[0]], 'absent': ['ZZZZ'],
+               'some': [n for n in names[1:] if rng.random() < 0.5] or [names[-1]]}[kind]
+        steps.append({'subset': sub, 'kind': 'hist-' + kind, 'red': rng.choice(REDUCTIONS), 'width': rng.choice([1, 4, 8, 12, 16, rng.randint(1, 24)]),
+                      'dec': rng.randint(0, 9), 'mode': rng.choice(['combined', 'separate', 'curve+array']), 'obj': 0})
+    out = []
+    for i, st in enumerate(steps):
+        hist = []
+        for j in range(i):
+            hist.append(steps[j])
+            if rng.random() < 0.4:
+                hist.append(dict(rng.choice(steps), obj=1))
+        c = dict(base, **{k: st[k] for k in STEP_KEYS})
+        c['history'] = hist
+        out.append(c)
+    return out
+
+
+_KEEP = None        # replay keeps every FrameArray alive, so that object identities (id) are never reused between trials
+
+
 def build(case):
     import numpy as np
     from TotalDepth.common import LogPass
@@ -229,13 +263,15 @@ def build(case):
         for f, fr in enumerate(ch['values']):
             vals = [float.fromhex(v) for v in fr] if isf else fr
             fch.array[f] = np.array(vals, dtype=np.dtype(ch['dtype'])).reshape(tuple(ch['shape']))
+    if _KEEP is not None:
+        _KEEP.append(fa)
     return fa
 
 
-def write(case):
+def _write_on(fa, case):
+    """one write of the frame array object `fa` with the options of `case` -> text"""
     from TotalDepth.common import Slice
     from TotalDepth.LAS.core import WriteLAS
-    fa = build(case)
     out = io.StringIO()
     fmt = '.%df' % case['dec']
     mode = case.get('mode', 'combined')
@@ -253,7 +289,21 @@ def write(case):
         WriteLAS.write_curve_section_to_las(fa, set(case['subset']), out)
         WriteLAS.write_array_section_to_las(fa, case['n_frames'], case['red'], Slice.Slice(), set(case['subset']),
                                             case['width'], fmt, out)
-    return fa, out.getvalue()
+    return out.getvalue()
+
+
+def write(case):
+    """Build the frame array and write it.  With `case['history']` (a list of earlier writes: option dicts with 'obj' 0 = the
+    SAME FrameArray object, 1 = another object with the same channels) those writes are performed first - their output is
+    checked when they are the last step of their own case - and the text returned is that of the final write on object 0:
+    what a write produces must not depend on what was written before."""
+    fa = build(case)
+    other = None
+    for h in case.get('history', []):
+        if h.get('obj', 0) == 1 and other is None:
+            other = build(case)
+        _write_on(other if h.get('obj', 0) == 1 else fa, dict(case, **h))
+    return fa, _write_on(fa, case)
 
 
 def parse_text(text):
@@ -650,6 +700,8 @@ def run(ctx):
     have_model = getattr(ctx, 'model_available', True)
     for start in range(0, total, chunk):
         cases = [gen_case(rng) for _ in range(min(chunk, total - start))]
+        for _ in range(len(cases) // 12):                       # write histories (about a quarter of the cases)
+            cases += gen_history(rng)
         results = [evaluate(ctx, case) for case in cases]
         for case, res in list(zip(cases, results))[5:7]:
             if res is not None:
@@ -670,6 +722,8 @@ def run(ctx):
 
 
 def replay(ctx, rec):
+    global _KEEP
+    _KEEP = []
     case = rec.get('case') or {}
     if 'chans' not in case:
         return True, 'nothing to replay (no concrete failing input was recorded)'
@@ -680,4 +734,14 @@ def replay(ctx, rec):
         ok = evaluate(ctx, case) is not None
     if len(ctx.failures) > n0:
         return False, ctx.failures[-1]['detail']
+    if not case.get('name_as_value') and not case.get('history'):
+        # The recorded write is fine on a fresh object in a fresh process.  It may have failed because of what was written
+        # BEFORE it in the run (state kept between writes): try it after other writes of the same object.
+        names = [ch['ident'] for ch in case['chans']]
+        for sub in ([], names[:1], names[-1:], names):
+            for mode in ('combined', 'separate'):
+                prior = {'subset': sub, 'kind': 'replay-prior', 'red': case['red'], 'width': case['width'], 'dec': case['dec'], 'mode': mode, 'obj': 0}
+                if evaluate(ctx, dict(case, history=[prior])) is None:
+                    return False, (f'holds on a fresh FrameArray, FAILS after an earlier write of the same object with subset {sub!r} '
+                                   f'({mode}): ' + ctx.failures[-1]['detail'])
     return True, 'curve section, heading, rows and read-back values agree with the source'
